@@ -87,6 +87,7 @@ def module_nested(non_local=True):
         f.hugr[nd].metadata[f"container{j}"] = {"idx": j}
     f.add_state_order(inner.parent_node, cond.parent_node)
     f.add_state_order(cond.parent_node, tl.parent_node)
+    f.add_state_order(inner.parent_node, tl.parent_node)          # a node with two order predecessors (and one with two successors)
     f.set_outputs(tl[0], last)
     return m
 
@@ -193,6 +194,13 @@ def module_attrs():
     lf = f.load_function(natp, instantiation=tys.FunctionType([B], [B]), type_args=[tys.BoundedNatArg(0), tys.BoundedNatArg(0)])
     f.add_state_order(c, lf)                                # a state-order edge INTO a load_function node
     f.add_op(cust("use_fn", [tys.FunctionType([B], [B])], []), lf)
+    # a function-valued constant whose body carries node metadata
+    body = Dfg(B)
+    nb = body.add_op(cust("in_body", [B], [B]), *body.inputs(), metadata={"inside": ["function", "value"]})
+    body.set_outputs(nb[0])
+    body.hugr[body.hugr.root].metadata["body_root"] = 1
+    fv = f.load(val.Function(body.hugr))
+    f.add_op(cust("use_fv", [tys.FunctionType([B], [B])], []), fv)
     f.set_outputs(cfg[0])
     return m
 
@@ -202,7 +210,8 @@ MODULES = [module_simple, module_calls, module_nested, module_cfg, module_values
 
 @native
 def extension_small(name="ext.ünï", with_binary=False):
-    e = ext.Extension(name, ext.Version(0, 2, 1), runtime_reqs={"prelude"})
+    # (the variant with binary definitions also has a version with pre-release and build parts)
+    e = ext.Extension(name, ext.Version(0, 2, 1, prerelease="rc.1", build="b5") if with_binary else ext.Version(0, 2, 1), runtime_reqs={"prelude"})
     td = e.add_type_def(ext.TypeDef("T", "a type ✓", [tys.TypeTypeParam(tys.TypeBound.Any)], ext.FromParamsBound([0])))
     e.add_type_def(ext.TypeDef("C", "copyable", [tys.BoundedNatParam(None), tys.BoundedNatParam(7)], ext.ExplicitBound(tys.TypeBound.Copyable)))
     e.add_op_def(ext.OpDef("Op", ext.OpDefSig(tys.PolyFuncType([tys.TypeTypeParam(tys.TypeBound.Any)],
